@@ -138,7 +138,7 @@ func rng(t *rapid.T, lo, hi int, label string) int { return lo + uniform(t, hi-l
 func (pf *Profile) genStepFail(t *rapid.T) Step {
 	st := Step{Out: Transient}
 	if pf.RichOutcomes {
-		st.Out = pick(t, []Outcome{Transient, Transient, Permanent, Permanent, WrongType}, "failOut")
+		st.Out = pick(t, []Outcome{Transient, Transient, Permanent, Permanent, WrongType, WrongTypeErr}, "failOut")
 		st.Wrap = rng(t, 0, 3, "wrap")
 	} else {
 		st.Out = pick(t, []Outcome{Transient, Permanent}, "failOut")
@@ -169,6 +169,7 @@ func (pf *Profile) genAction(t *rapid.T, fail bool, gateable bool, isCheck bool)
 			}
 			if pf.POverrun > 0 && pct(t, pf.POverrun, "overrunT") {
 				st.Out = Overrun
+				st.Wrap = uniform(t, 4, "lateness")
 			}
 			script = append(script, st)
 		}
@@ -193,7 +194,7 @@ func (pf *Profile) genAction(t *rapid.T, fail bool, gateable bool, isCheck bool)
 		if fail {
 			st := pf.genStepFail(t)
 			if pf.POverrun > 0 && pct(t, pf.POverrun, "overrunF") {
-				st = Step{Out: Overrun}
+				st = Step{Out: Overrun, Wrap: uniform(t, 4, "lateness")}
 			}
 			script = append(script, st)
 		} else {
